@@ -126,6 +126,38 @@ def _const_part(g, res):
                                   "detail": {}})
 
 
+    # one long-lived velocity object: assembled, its face values overwritten in place (the documented way of
+    # editing a FaceVariable), assembled again - and the same for velocities of very small / large magnitude
+    a0 = g.face_arrays(U.generic_face(g.mesh, tag=45, signed=True))
+    ush = U.face_from_arrays(g.mesh, a0)
+    phi1 = g.cell(np.ones(g.fshape))
+    edits = [("first assembly", [a.copy() for a in a0]), ("sign flipped in place", [-a for a in a0]),
+             ("scaled by 2^-40 in place", [a * 2.0 ** -40 for a in a0]),
+             ("every other face reversed in place", [np.where(np.indices(a.shape).sum(axis=0) % 2 == 0, a, -a) * 2.0 ** 45 for a in a0]),
+             ("set to zero in place", [np.zeros_like(a) for a in a0])]
+    for label, arrs in edits:
+        for ax in range(g.d):
+            getattr(ush, U.COMP[ax])[...] = arrs[ax]
+        div = np.asarray(pf.divergenceTerm(U.face_from_arrays(g.mesh, arrs)), dtype=float)[rows]
+        for nm, T in (("central", pf.convectionTerm), ("upwind", pf.convectionUpwindTerm)):
+            got = (dense(T(ush)) @ ones)[rows]
+            res["evals"] += 1
+            res["nontrivial"] += 1
+            if cmp_tol(got, div, rel=1e-11).any():
+                k = "C06:%s_of_constant:%s:velocity_edited_in_place" % (nm, g.cls)
+                if k not in seen:
+                    seen.add(k)
+                    F.append({"key": k, "msg": "%s advection of the constant 1 on %s, velocity object %s: result %.6g differs from divergenceTerm(u) %.6g of the current velocity"
+                                               % (nm, U.spec_id(g.spec), label, float(got[np.argmax(np.abs(got - div))]), float(div[np.argmax(np.abs(got - div))])), "detail": {}})
+        rhs = np.asarray(pf.convectionTVDupwindRHSTerm(ush, phi1, pf.fluxLimiter("Koren")), dtype=float)
+        res["evals"] += 1
+        if not np.all(rhs == 0.0):
+            k = "C06:tvd_of_constant:%s:velocity_edited_in_place" % g.cls
+            if k not in seen:
+                seen.add(k)
+                F.append({"key": k, "msg": "TVD correction of a constant on %s is not zero (velocity object %s)" % (U.spec_id(g.spec), label), "detail": {}})
+
+
 def _source_part(g, res):
     F = res["findings"]
     beta = U.generic_array(g.dims, tag=51, signed=True)
